@@ -538,9 +538,16 @@ func c08Sequential(c *core.Ctx, res *core.Result) {
 func c08Crash(c *core.Ctx, res *core.Result) {
 	r := c.Rand
 	cfg := kv.Cfg{MemTableSize: []int64{1, 300, 4096, 1 << 20}[r.Intn(4)], MaxMemTables: r.Range(1, 4), SyncMode: r.Intn(3), CompactSecs: 3600}
-	o := kv.GenOpts{NOps: r.Range(3, 50), NKeys: r.Range(2, 10), Maintenance: 4, Tx: true, Batch: true}
+	o := kv.GenOpts{NOps: r.Range(3, 50), NKeys: r.Range(2, 10), Maintenance: 4, Tx: true, Batch: true, BigValues: r.Chance(40)}
 	if r.Chance(20) {
 		o.NOps = 1
+	}
+	tornCase := r.Chance(40)
+	if tornCase && r.Chance(70) {
+		// one log file holding entries larger than a log record
+		cfg.MemTableSize = 32 << 20
+		o.BigValues = true
+		o.NOps = r.Range(10, 50)
 	}
 	dir := filepath.Join(c.Dir, "db")
 	spec := &kv.ChildSpec{Dir: dir, Cfg: cfg, Seed: r.U64(), Tag: fmt.Sprintf("c%d", c.Idx), Opts: o, KeySeed: r.U64(), Journal: filepath.Join(c.Dir, "journal"), Profile: filepath.Join(c.Dir, "profile")}
@@ -559,6 +566,32 @@ func c08Crash(c *core.Ctx, res *core.Result) {
 		crash = fmt.Sprintf("%s:%d", pts[0].Site, pts[0].N)
 	}
 	kv.RunChild(c.Self, spec, filepath.Join(c.Dir, "spec.json"), crash, "", time.Minute)
+	// in 40% of the cases the newest log file additionally ends in a torn write: cut between two fragments of a
+	// large entry (or between two records of a batch) if there is such a place, else at a PRNG offset near the end
+	torn := ""
+	if wf, _ := filepath.Glob(filepath.Join(dir, "wal", "*.wal")); len(wf) > 0 && tornCase {
+		sort.Strings(wf)
+		f := wf[len(wf)-1]
+		if raw, rerr := os.ReadFile(f); rerr == nil && len(raw) > 7 {
+			var inner []int
+			for pos := 0; pos+7 <= len(raw); {
+				typ := raw[pos+6]
+				pos += 7 + int(raw[pos+4]) + int(raw[pos+5])<<8
+				if (typ == 2 || typ == 3) && pos < len(raw) {
+					inner = append(inner, pos) // behind a FIRST or MIDDLE fragment
+				}
+			}
+			cut := len(raw) - 1 - r.Intn(min(len(raw)-1, 200))
+			if len(inner) > 0 && r.Chance(70) {
+				cut = inner[r.Intn(len(inner))]
+				torn = "between_fragments"
+			} else {
+				torn = "inside_record"
+			}
+			os.Truncate(f, int64(cut))
+			res.Count("torn_tails_"+torn, 1)
+		}
+	}
 	before, err := readLogSeq(filepath.Join(dir, "wal"))
 	_ = err // a torn tail is possible after a kill; what was read is what counts
 	var max uint64
@@ -594,7 +627,10 @@ func c08Crash(c *core.Ctx, res *core.Result) {
 		}
 	}
 	res.Count("recoveries", 1)
-	feat := map[string]string{"mode": "crash", "log_entries_before": fmt.Sprint(len(before))}
+	feat := map[string]string{"mode": "crash", "log_entries_before": fmt.Sprint(len(before)), "torn_tail": torn}
+	if torn != "" {
+		crash += " + log cut " + torn
+	}
 	if !found {
 		res.Violate("post_recovery_write_missing_from_log", "the write made after the recovery is not in the log", feat)
 		return
